@@ -62,7 +62,7 @@ def gen_random(rng):
 
 
 def exhaustive_cases(tier):
-    depth = 2 if tier == "quick" else 4
+    depth = 2 if tier == "quick" else 3
     alphabet = [["step"], ["do", ["cancel", 0]], ["do", ["cancel", 1]], ["do", ["throw", 1, ["interrupt", 1]]],
                 ["do", ["throw", 2, ["interrupt", 2]]], ["spawn", ["plain"], producer(1, True)],
                 ["spawn", ["plain"], producer(2, False)]]
@@ -78,7 +78,7 @@ def exhaustive_cases(tier):
 
 def gen(rng, tier):
     yield from exhaustive_cases(tier)
-    for _ in range(300 if tier == "quick" else 8000):
+    for _ in range(300 if tier == "quick" else 3000):
         yield gen_random(rng)
 
 
